@@ -103,6 +103,9 @@ def int_mv(rng, dims, kind=None, lo=-4, hi=4, grades=None):
 
 def dyadic_mv(rng, dims, kind=None):
     """dyadic rationals m * 2^-e as Fractions, exactly representable and small enough that products stay exact"""
+    if kind is None:
+        # never the 2^20-sized family: with up to 7 fractional bits, sums of products would not be exact in binary64
+        kind = str(rng.choice(['dense', 'sparse1', 'sparse2', 'sparse3', 'half', 'zero'], p=[0.4, 0.15, 0.15, 0.1, 0.17, 0.03]))
     iv = int_mv(rng, dims, kind, lo=-64, hi=64)
     e = rng.integers(0, 8, size=dims)
     return [Fraction(int(a), 2 ** int(b)) for a, b in zip(iv, e)]
